@@ -18,16 +18,16 @@ namespace Dirk
     version, or imported) that has not released anything yet -/
 def init (cfg : Config) (db0 : Db) : Inst := { cfg := cfg, db := db0 }
 
-theorem signGeneric_frame (s : Inst) (c ip : String) (a : Addr) (d : SignData) (sf : Bool) :
-    (signGeneric s c ip a d sf).1.db = s.db ∧ (signGeneric s c ip a d sf).1.attLog = s.attLog ∧
-    (signGeneric s c ip a d sf).1.propLog = s.propLog := by
+theorem signGeneric_frame (s : Inst) (c ip : String) (a : Addr) (d : SignData) (sf lf : Bool) :
+    (signGeneric s c ip a d sf lf).1.db = s.db ∧ (signGeneric s c ip a d sf lf).1.attLog = s.attLog ∧
+    (signGeneric s c ip a d sf lf).1.propLog = s.propLog := by
   unfold signGeneric
   repeat' split
   all_goals simp
 
-theorem multisign_frame (s : Inst) (c ip : String) (items : List (Addr × SignData)) (sf : List Nat) :
-    (multisign s c ip items sf).1.db = s.db ∧ (multisign s c ip items sf).1.attLog = s.attLog ∧
-    (multisign s c ip items sf).1.propLog = s.propLog := by
+theorem multisign_frame (s : Inst) (c ip : String) (items : List (Addr × SignData)) (sf : List Nat) (lf : Bool) :
+    (multisign s c ip items sf lf).1.db = s.db ∧ (multisign s c ip items sf lf).1.attLog = s.attLog ∧
+    (multisign s c ip items sf lf).1.propLog = s.propLog := by
   unfold multisign
   simp only
   repeat' split
@@ -47,8 +47,8 @@ theorem step_attInv_with_imports (s : Inst) (op : Op) (h : AttInv s) (hs : op.sa
   | att c a d f => exact signAtt_inv h c a d f false
   | atts c items f => exact signAtts_inv h c items f []
   | prop c a d f => exact signProp_attInv h c a d f false
-  | sign c ip a d => exact attInv_of_frame h (signGeneric_frame s c ip a d false).1 (signGeneric_frame s c ip a d false).2.1
-  | msign c ip items => exact attInv_of_frame h (multisign_frame s c ip items []).1 (multisign_frame s c ip items []).2.1
+  | sign c ip a d => exact attInv_of_frame h (signGeneric_frame s c ip a d false false).1 (signGeneric_frame s c ip a d false false).2.1
+  | msign c ip items => exact attInv_of_frame h (multisign_frame s c ip items [] false).1 (multisign_frame s c ip items [] false).2.1
   | restart => exact h
   | importRec k r => exact importKey_attInv h (toBytes48 k) r hs
   | importCmd gvr f => exact step_importCmd_attInv h gvr f
@@ -63,8 +63,8 @@ theorem step_propInv_with_imports (s : Inst) (op : Op) (h : PropInv s) (hs : op.
   | att c a d f => exact signAtt_propInv h c a d f false
   | atts c items f => exact signAtts_propInv h c items f []
   | prop c a d f => exact signProp_propInv h c a d f false
-  | sign c ip a d => exact propInv_of_frame h (signGeneric_frame s c ip a d false).1 (signGeneric_frame s c ip a d false).2.2
-  | msign c ip items => exact propInv_of_frame h (multisign_frame s c ip items []).1 (multisign_frame s c ip items []).2.2
+  | sign c ip a d => exact propInv_of_frame h (signGeneric_frame s c ip a d false false).1 (signGeneric_frame s c ip a d false false).2.2
+  | msign c ip items => exact propInv_of_frame h (multisign_frame s c ip items [] false).1 (multisign_frame s c ip items [] false).2.2
   | restart => exact h
   | importRec k r => exact importKey_propInv h (toBytes48 k) r hs
   | importCmd gvr f => exact step_importCmd_propInv h gvr f
